@@ -386,6 +386,9 @@ def softBothAll (s : S) : S := softOutAll (softInAll s)
     (ListPath adj-out, counters) may use the read lock. Checked against the Go AST on every run. -/
 def lockOk (sends write : Bool) : Bool := !sends || write
 
+/-- the sender applies the list of one pass in order: for one wire key the LAST action wins -/
+def lastAction (k : Nat) (l : List P) : Option P := (l.filter (fun p => p.r.pfx == k)).getLast?
+
 inductive SOp where
   | up (idx : Nat)
   | down (idx : Nat)
